@@ -27,6 +27,13 @@ def run_design(v, w, tier):
     if r["violated"]:
         raise Infra("design model FeeMarket_mc violates a law (specification bug):\n" + r["out"][-3000:])
     log("design run FeeMarket_mc/%s: %d distinct states, %d transitions, all laws hold" % (cfg, r["distinct"], r["generated"]))
+    if tier != "quick":
+        # every proposal (all minimum gas prices, all carried base fees) at every block end, on the small domain
+        r3 = vlib.tlc(d, "FeeMarket_mc", "FeeMarket_mc_thorough_gov.cfg", workers=16, timeout=3000)
+        v.add_mc(r3)
+        if r3["violated"]:
+            raise Infra("design model FeeMarket_mc (all proposals) violates a law (specification bug):\n" + r3["out"][-3000:])
+        log("design run FeeMarket_mc/all proposals: %d distinct states, %d transitions" % (r3["distinct"], r3["generated"]))
     # named deviation: fee market end-blocker before the gov end-blocker must break the floor after a parameter change
     r2 = vlib.tlc(d, "FeeMarket_mc", "FeeMarket_mc_dev_order.cfg", workers=4, timeout=1800)
     if not r2["violated"]:
